@@ -25,6 +25,7 @@ import IcyVerif.Drv.SixelLoad
 import IcyVerif.Drv.SixelQueue
 import IcyVerif.Drv.Tdf
 import IcyVerif.Drv.Term
+import IcyVerif.Drv.TextLoad
 import IcyVerif.Drv.Undo
 import IcyVerif.Drv.Uni
 import IcyVerif.Drv.XbCompress
@@ -59,6 +60,7 @@ def dispatch (line : String) : String :=
   | "sixelqueue" :: rest => SixelQueue.handle rest
   | "tdf" :: rest => Tdf.handle rest
   | "term" :: rest => Term.handle rest
+  | "textload" :: rest => TextLoad.handle rest
   | "undo" :: rest => Undo.handle rest
   | "uni" :: rest => Uni.handle rest
   | "xbcompress" :: rest => XbCompress.handle rest
